@@ -27,19 +27,23 @@ func TestMakeExemplars(t *testing.T) {
 	shl := Fault{Kind: "bin", Op: "<<", A: []int{idx("1"), idx("(-1)")}}
 	neq := Fault{Kind: "bin", Op: "!=", A: []int{idx("1"), idx("\"a\"")}}
 	cases := map[string]Case{
-		"F5b-modulo-by-zero-caught":                 {Fault: mod0, Context: "top", Try: true, Procs: 4, Opt: true},
-		"F5b-negative-shift-in-closure":             {Fault: shl, Context: "closure", Try: true, Procs: 4},
-		"F5b-unequal-incomparable-in-switch":        {Fault: neq, Context: "switchCase", Try: true, Procs: 1, Opt: true},
-		"F5b-random-zero":                           {Fault: Fault{Kind: "static", Op: "random", A: []int{idx("0")}}, Context: "top", Procs: 2},
-		"F5b-combineN-zero-lazy-result":             {Fault: Fault{Kind: "method", Op: "combineN", A: []int{idx("[1]"), idx("0"), idx("p -> p")}}, Context: "lazyResult", Procs: 2},
-		"F5a-host-panic-on-parallel-map-worker":     {Fault: Fault{Kind: "boom", N: 0}, Context: "parMap", Procs: 16, Opt: true},
-		"F5a-host-panic-on-parallel-accept-worker":  {Fault: Fault{Kind: "boom", N: 1}, Context: "parAccept", Try: true, Procs: 4},
-		"F5a-host-panic-behind-parallel-stage":      {Fault: Fault{Kind: "boom", N: 2}, Context: "behindParallel", Procs: 16, Opt: true},
-		"F5a-host-panic-in-merge-operand":           {Fault: Fault{Kind: "boom", N: 2}, Context: "mergeOperand", Try: true, Procs: 4},
-		"F5a-host-panic-in-multiUse-consumer":       {Fault: Fault{Kind: "boom", N: 0}, Context: "multiUseConsumer", Procs: 4, Opt: true},
-		"F5a-host-panic-caught-by-try":              {Fault: Fault{Kind: "boom", N: 1}, Context: "closure", Try: true, Procs: 1},
-		"F28-orderLess-reports-comparator-errors":   {Fault: mod0, Context: "orderLess", Procs: 1, Opt: true},
-		"guarded-runaway-recursion":                 {Fault: Fault{Kind: "recursion", N: 0}, Context: "top", Try: true, Procs: 2},
+		"F5b-modulo-by-zero-caught":                    {Fault: mod0, Context: "top", Try: true, Procs: 4, Opt: true},
+		"F5b-negative-shift-in-closure":                {Fault: shl, Context: "closure", Try: true, Procs: 4},
+		"F5b-unequal-incomparable-in-switch":           {Fault: neq, Context: "switchCase", Try: true, Procs: 1, Opt: true},
+		"F5b-random-zero":                              {Fault: Fault{Kind: "static", Op: "random", A: []int{idx("0")}}, Context: "top", Procs: 2},
+		"F5b-combineN-zero-lazy-result":                {Fault: Fault{Kind: "method", Op: "combineN", A: []int{idx("[1]"), idx("0"), idx("p -> p")}}, Context: "lazyResult", Procs: 2},
+		"F5a-host-panic-on-parallel-map-worker":        {Fault: Fault{Kind: "boom", N: 0}, Context: "parMap", Procs: 16, Opt: true},
+		"F5a-host-panic-on-parallel-accept-worker":     {Fault: Fault{Kind: "boom", N: 1}, Context: "parAccept", Try: true, Procs: 4},
+		"F5a-host-panic-behind-parallel-stage":         {Fault: Fault{Kind: "boom", N: 2}, Context: "behindParallel", Procs: 16, Opt: true},
+		"F5a-host-panic-in-merge-operand":              {Fault: Fault{Kind: "boom", N: 2}, Context: "mergeOperand", Try: true, Procs: 4},
+		"F5a-host-panic-in-multiUse-consumer":          {Fault: Fault{Kind: "boom", N: 0}, Context: "multiUseConsumer", Procs: 4, Opt: true},
+		"F5a-host-panic-caught-by-try":                 {Fault: Fault{Kind: "boom", N: 1}, Context: "closure", Try: true, Procs: 1},
+		"F28-orderLess-reports-comparator-errors":      {Fault: mod0, Context: "orderLess", Procs: 1, Opt: true},
+		"host-panic-in-iir-stage-of-merge-operand":     {Fault: Fault{Kind: "boom", N: 0}, Context: "mergeOperandStage", Stage: "iir", Try: true, Procs: 4},
+		"host-panic-in-number-stage-of-merge-receiver": {Fault: Fault{Kind: "boom", N: 1}, Context: "mergeReceiverStage", Stage: "number", Procs: 1},
+		"host-panic-in-fsm-stage-behind-early-stop":    {Fault: Fault{Kind: "boom", N: 2}, Context: "mergeOperandStageFirst", Stage: "fsm", Procs: 4, Opt: true},
+		"modulo-by-zero-in-combine-stage-of-multiUse":  {Fault: mod0, Context: "multiUseConsumerStage", Stage: "combine", Try: true, Procs: 2},
+		"guarded-runaway-recursion":                    {Fault: Fault{Kind: "recursion", N: 0}, Context: "top", Try: true, Procs: 2},
 	}
 	for name, c := range cases {
 		os.Setenv("VERIF_FAILFILE", filepath.Join(dir, name+".json"))
